@@ -209,7 +209,7 @@ type c20Universe struct {
 
 func c20Universes(c *core.Ctx) []c20Universe {
 	if c.Quick() {
-		return []c20Universe{{"ab", []byte("ab"), 3, 4, 3}}
+		return []c20Universe{{"ab", []byte("ab"), 3, 4, 3}, {"a-00-ff", []byte{'a', 0, 0xff}, 2, 4, 2}}
 	}
 	return []c20Universe{{"ab", []byte("ab"), 3, 5, 3}, {"a-00-ff", []byte{'a', 0, 0xff}, 3, 4, 2}, {"abc", []byte("abc"), 2, 6, 2}}
 }
@@ -445,6 +445,9 @@ func init() {
 			}
 			if ml < 0 {
 				ml = u.maxLen
+				if name == "a-00-ff" && c.Tier != "thorough" {
+					ml = 2
+				}
 			}
 			words := c20Words(u.alpha, ml)
 			prefixes := c20Prefixes(u.alpha, 4)
